@@ -98,7 +98,9 @@ class CFG:
                  may_raise: Optional[Callable[[ast.Call], bool]] = None,
                  stmt_may_raise: Optional[Callable[[ast.AST], bool]] = None):
         self.fn = fn_node
-        self.assume = assume or {}
+        self.assume = dict(assume or {})
+        if self.assume:
+            self._alias_assumptions()
         self.may_raise = may_raise or (lambda c: False)
         self.stmt_may_raise = stmt_may_raise
         self.g = nx.DiGraph()
@@ -117,6 +119,39 @@ class CFG:
             self._edge(p, EXIT, k)
         self._dom = None
         self._pdom = None
+
+    def _alias_assumptions(self):
+        """A local that is bound exactly once, to an expression whose truth value the assumptions decide (`clears = base is None`), is itself decided:
+        tests may then be spelled through the local without the specialisation losing them."""
+        counts: Dict[str, int] = {}
+        single: Dict[str, ast.expr] = {}
+        params = set()
+        a = getattr(self.fn, "args", None)
+        if a is not None:
+            params = {x.arg for x in a.posonlyargs + a.args + a.kwonlyargs} | ({a.vararg.arg} if a.vararg else set()) | ({a.kwarg.arg} if a.kwarg else set())
+        stack = list(ast.iter_child_nodes(self.fn))
+        while stack:
+            n = stack.pop()
+            if isinstance(n, (ast.FunctionDef, ast.AsyncFunctionDef, ast.ClassDef, ast.Lambda)):
+                continue
+            if isinstance(n, ast.Name) and isinstance(n.ctx, (ast.Store, ast.Del)):
+                counts[n.id] = counts.get(n.id, 0) + 1
+            if isinstance(n, ast.Assign) and len(n.targets) == 1 and isinstance(n.targets[0], ast.Name):
+                single[n.targets[0].id] = n.value
+            stack.extend(ast.iter_child_nodes(n))
+        for _ in range(3):
+            changed = False
+            for nm, val in single.items():
+                if counts.get(nm) != 1 or nm in params or nm in self.assume:
+                    continue
+                if isinstance(val, ast.Constant):
+                    continue
+                r = eval3(val, self.assume)
+                if r is True or r is False:
+                    self.assume[nm] = r
+                    changed = True
+            if not changed:
+                break
 
     # -------------------------------------------------------------- construction helpers
     def _new(self, stmt: ast.AST, label: str = None) -> int:
